@@ -8,6 +8,7 @@ require (
 	github.com/flant/shell-operator v0.0.0
 	github.com/itchyny/gojq v0.12.17
 	github.com/prometheus/client_golang v1.20.5
+	github.com/prometheus/client_model v0.6.1
 	k8s.io/apimachinery v0.30.11
 	pgregory.net/rapid v1.3.0
 )
@@ -69,7 +70,6 @@ require (
 	github.com/peterbourgon/diskv v2.0.1+incompatible // indirect
 	github.com/pkg/errors v0.9.1 // indirect
 	github.com/pmezard/go-difflib v1.0.0 // indirect
-	github.com/prometheus/client_model v0.6.1 // indirect
 	github.com/prometheus/common v0.55.0 // indirect
 	github.com/prometheus/procfs v0.15.1 // indirect
 	github.com/spf13/pflag v1.0.5 // indirect
